@@ -103,6 +103,8 @@ func TestVerifC19Engine(t *testing.T) {
 				}
 			}
 		}
+		sharedKey := rapid.Bool().Draw(rt, "sharedNewKey")
+		sharedOK := make([]bool, g)
 		var raceTypes []byte
 		raceOK := make([]bool, g)
 		if typeRace {
@@ -124,6 +126,11 @@ func TestVerifC19Engine(t *testing.T) {
 					}
 				}()
 				<-start
+				if sharedKey {
+					// every goroutine's first write creates (or races to create) the same new series/field key
+					err := b.store.WriteToShard(1, []modelsPoint{vPt{M: "m3", Tags: map[string]string{"host": "shared"}, Fields: map[string]vVal{"f0": vF(float64(i))}, TS: int64(i)}.point()})
+					sharedOK[i] = err == nil
+				}
 				if typeRace {
 					var v vVal
 					switch raceTypes[i] {
@@ -209,6 +216,21 @@ func TestVerifC19Engine(t *testing.T) {
 		if failure != "" {
 			rt.Fatalf("%s after join: %s", verifkit.Sig(failSig), failure)
 		}
+		if sharedKey {
+			rows, err := b.readField(1, "m3", "f0", true, influxql.MinTime, influxql.MaxTime, "")
+			if err != nil {
+				rt.Fatalf("%s reading the shared series: %v", verifkit.Sig("concurrent-read-error"), err)
+			}
+			have := map[int64]bool{}
+			for _, r := range rows {
+				have[r.TS] = true
+			}
+			for i := 0; i < g; i++ {
+				if sharedOK[i] && !have[int64(i)] {
+					rt.Fatalf("%s goroutine %d's acknowledged first write to the new shared key m3,host=shared (ts=%d) is not readable; %d of %d points present", verifkit.Sig("acknowledged-write-lost"), i, i, len(rows), g)
+				}
+			}
+		}
 		if typeRace {
 			rows, err := b.readField(1, "m2", "raced", true, influxql.MinTime, influxql.MaxTime, "")
 			if err != nil {
@@ -244,7 +266,7 @@ func TestVerifC19Engine(t *testing.T) {
 		for k := range kindSet {
 			cl = append(cl, "op:"+k)
 		}
-		cl = append(cl, "index:"+idx, fmt.Sprintf("typeRace:%v", typeRace))
+		cl = append(cl, "index:"+idx, fmt.Sprintf("typeRace:%v", typeRace), fmt.Sprintf("sharedNewKey:%v", sharedKey))
 		stats.Case(g >= 3 && len(kindSet) >= 2, fmt.Sprint(idx, typeRace, progs), cl...)
 		if stats.WantSample() {
 			stats.Sample(map[string]interface{}{"index": idx, "goroutines": g, "typeRace": typeRace, "programs": progs})
